@@ -166,6 +166,9 @@ class Registry:
                             when = k.value
                     c.raises.append({"exc": exc, "when": when if when is not None else ast.Constant(True)})
                     continue
+                if name == "may_raise":
+                    c.may_raise = getattr(c, "may_raise", []) + [call.args[0].id]
+                    continue
                 if name == "modifies":
                     c.modifies += [ast.literal_eval(a) for a in call.args]
                     continue
